@@ -324,6 +324,10 @@ def verify_run(model, run, mode, api, file_name, features, result=None):
     error mode ``mode``.  Raises core.Violation on the first difference."""
     from sim import core
 
+    changed = run.held_changed()
+    if changed is not None:
+        # an error handed out earlier must keep its own location while reading goes on
+        raise core.Violation("held-error-changed-after-yield", features, "item %d: at yield %r, after the pass %r" % changed)
     items = model.items()
     first_error = next((index for index, item in enumerate(items) if item[0] == "err"), None)
     raised_item = None
